@@ -256,7 +256,11 @@ class Session:
                 if idx < len(cases) and cases[idx]:
                     rec["case"] = json.loads(cases[idx])
                 if str(r.get("invariant", "")).startswith("Driver"):
-                    raise Undecided("bad test input (generator claim not re-derived by the spec): %s" % json.dumps(rec)[:800])
+                    rdir = os.environ.get("VERIF_REPLAY_DIR") or os.path.join(VERIF, "replays")
+                    os.makedirs(rdir, exist_ok=True)
+                    bp = os.path.join(rdir, "badinput-%s.json" % self.prop)
+                    json.dump({"property": self.prop, "invariant": r.get("invariant"), "record": rec}, open(bp, "w"), indent=1)
+                    raise Undecided("bad test input (generator claim %s not re-derived by the spec); record in %s" % (r.get("invariant"), bp))
                 kf = match_known(self.prop, rec, known)
                 if kf is None:
                     return ("violation", Violation(self, meta, module, r.get("invariant", "?"), rec, r), hits, st, tr)
